@@ -471,8 +471,13 @@ def case_field_edits(ctx, s: Subject, malformed=False):
     fs = rng.sample(names, rng.randint(1, len(names)))
     if malformed and rng.random() < 0.3:
         fs = fs + ["nope"]
+    as_str = len(fs) == 1 and rng.random() < 0.5
+    containing = [x for x in names if any(y != x and y in x for y in names)]
+    if containing and rng.random() < 0.7:
+        # the one name given as a plain string contains the name of a field that has to stay
+        fs, as_str = [rng.choice(containing)], True
     ans = ctx.driver.call("popFields", col=s.phys, fields=fs)
-    real = call_real(lambda: sres(ser.nest.without_field(fs if len(fs) > 1 or rng.random() < 0.5 else fs[0])))
+    real = call_real(lambda: sres(ser.nest.without_field(fs[0] if as_str else fs)))
     ctx.case("nest.without_field", {**s.desc(), "fields": fs}, real, mser(ans["model"], idx), mser(ans["spec"], idx),
              hyp=s.hyp, features=feats, nontrivial=s.nontrivial())
     fs = rng.sample(names, rng.randint(1, len(names)))
